@@ -176,6 +176,28 @@ fn rebinding_program(word: &str, in_closure: bool) -> (String, String) {
     (src, format!("1\n105\n{}\n105\n", red_slow))
 }
 
+/// re-matches of one enum variable that stand next to each other inside an arm of a match on it
+/// (name, source, expected output)
+fn rebinding_sequences() -> Vec<(&'static str, String, &'static str)> {
+    let mx = |k: i32| format!("match x {{ Color::Red => {k}, Color::Green(n{k}) => n{k} + {k} }}", k = k);
+    let my = |k: i32, inner: &str| format!("match y {{ Mode::Fast => {}, Mode::Slow(m{k}) => m{k} + {k} }}", inner, k = k);
+    let wrap = |red_arm: String| {
+        format!(
+            "enum Color {{ Red, Green(int32) }}\nenum Mode {{ Fast, Slow(int32) }}\nfn pick(x: Color, y: Mode) -> int32 {{\n    match x {{\n        Color::Red => {{\n{}        }},\n        Color::Green(n0) => n0 + 1000,\n    }}\n}}\nfn main() {{\n    string_println(int32_to_string(pick(Color::Red, Mode::Fast)));\n    string_println(int32_to_string(pick(Color::Green(5), Mode::Fast)));\n    string_println(int32_to_string(pick(Color::Red, Mode::Slow(7))));\n    string_println(int32_to_string(pick(Color::Green(5), Mode::Slow(7))))\n}}\n",
+            red_arm
+        )
+    };
+    vec![
+        ("x[x;x]", wrap(format!("            let a = {};\n            let b = {};\n            a + b\n", mx(1), mx(2))), "3\n1005\n3\n1005\n"),
+        ("x[x;y;x]", wrap(format!("            let a = {};\n            let c = {};\n            let b = {};\n            a + c + b\n", mx(1), my(10, "20"), mx(2))), "23\n1005\n20\n1005\n"),
+        ("x[y[x];x]", wrap(format!("            let a = {};\n            let b = {};\n            a + b\n", my(10, &mx(1)), mx(2))), "3\n1005\n19\n1005\n"),
+        ("x[x[x];x]", wrap(format!("            let a = match x {{ Color::Red => {}, Color::Green(q) => q }};\n            let b = {};\n            a + b\n", mx(1), mx(2))), "3\n1005\n3\n1005\n"),
+        ("x[x;x;x]", wrap(format!("            let a = {};\n            let b = {};\n            let c = {};\n            a + b + c\n", mx(1), mx(2), mx(3))), "6\n1005\n6\n1005\n"),
+        ("x[if[x];x]", wrap(format!("            let a = if true {{ {} }} else {{ 0 }};\n            let b = {};\n            a + b\n", mx(1), mx(2))), "3\n1005\n3\n1005\n"),
+        ("x[closure[x];x]", wrap(format!("            let f = || {};\n            let b = {};\n            f() + b\n", mx(1), mx(2))), "3\n1005\n3\n1005\n"),
+    ]
+}
+
 pub struct NamesFamily;
 
 fn run_text(ctx: &mut Ctx, text: &str) -> Result<Obs, (String, String)> {
@@ -224,7 +246,7 @@ impl Family for NamesFamily {
         &["C19", "C02", "C04"]
     }
     fn rule(&self) -> &'static str {
-        "90 hostile identifiers (Go keywords that goml allows, predeclared identifiers, runtime helper names, the builtins expanded at their call sites, compiler temporaries, generated type/helper names, spellings of the compiler's own type representation, the entry point's names, mangling look-alikes such as a__0) x 17 roles (fn / struct / variant of an imported package, fn, param, local, pattern variable, closure parameter, struct, field, enum, variant, trait, method, type parameter, fn next to temporaries, fn called from a closure) plus 14 collision witnesses for generated names, plus 21 programs declaring two entities of one name in one namespace (functions, types, traits, parameters of functions/methods/impl methods, variants, fields, extern vs fn, methods of one impl) that must be rejected, plus 29 programs of nested matches on two enum-typed variables (every word of length <= 4 over {x, y} beginning with x as the scrutinees from the outside in; the innermost level also inside a closure called at once), whose Go type switches rebind the scrutinee's identifier inside their cases; oracle: emitted Go passes the Go checker and prints exactly what the twin with a benign identifier prints (= the hard-wired expected output). non-trivial = cases whose hostile name survives into the Go text unescaped or mangled; distinct = distinct source text"
+        "90 hostile identifiers (Go keywords that goml allows, predeclared identifiers, runtime helper names, the builtins expanded at their call sites, compiler temporaries, generated type/helper names, spellings of the compiler's own type representation, the entry point's names, mangling look-alikes such as a__0) x 17 roles (fn / struct / variant of an imported package, fn, param, local, pattern variable, closure parameter, struct, field, enum, variant, trait, method, type parameter, fn next to temporaries, fn called from a closure) plus 14 collision witnesses for generated names, plus 21 programs declaring two entities of one name in one namespace (functions, types, traits, parameters of functions/methods/impl methods, variants, fields, extern vs fn, methods of one impl) that must be rejected, plus 29 programs of nested matches on two enum-typed variables (every word of length <= 4 over {x, y} beginning with x as the scrutinees from the outside in; the innermost level also inside a closure called at once) and 7 programs in which re-matches of the variable stand next to each other inside an arm of a match on it (with a match on the other variable, an if or a closure between or around them), whose Go type switches rebind the scrutinee's identifier inside their cases; oracle: emitted Go passes the Go checker and prints exactly what the twin with a benign identifier prints (= the hard-wired expected output). non-trivial = cases whose hostile name survives into the Go text unescaped or mangled; distinct = distinct source text"
     }
     fn cases(&self, _tier: Tier) -> Box<dyn Iterator<Item = Value> + '_> {
         let mut v = Vec::new();
@@ -238,6 +260,9 @@ impl Family for NamesFamily {
         }
         for (d, _) in duplicates() {
             v.push(json!({"kind": "duplicate", "name": d}));
+        }
+        for (nm, _, _) in rebinding_sequences() {
+            v.push(json!({"kind": "rebinding-sequence", "name": nm}));
         }
         for w in rebinding_words() {
             v.push(json!({"kind": "rebinding", "name": w, "closure": false}));
@@ -292,7 +317,11 @@ impl Family for NamesFamily {
             }
             return rep;
         }
-        let (text, expected, site) = if case["kind"] == "rebinding" {
+        let (text, expected, site) = if case["kind"] == "rebinding-sequence" {
+            let nm = case["name"].as_str().unwrap();
+            let (_, t, e) = rebinding_sequences().into_iter().find(|(n, _, _)| *n == nm).unwrap();
+            (t, e.to_string(), format!("rebinding-sequence={}", nm))
+        } else if case["kind"] == "rebinding" {
             let (w, c) = (case["name"].as_str().unwrap(), case["closure"].as_bool().unwrap_or(false));
             let (t, e) = rebinding_program(w, c);
             (t, e, format!("rebinding={}{}", w, if c { ";innermost-in-closure" } else { "" }))
